@@ -239,6 +239,14 @@ theorem metaOf_stMeta (o : Opts) (m : Meta) (st : ObjSt)
   cases m
   cases a <;> cases b <;> cases c <;> cases d <;> cases e <;> simp
 
+/-- `set_user` accepts the user name of an in-domain object (≤ 1024 bytes) -/
+theorem setUserCheck_stMeta (o : Opts) (m : Meta) (hm : MetaOK m) (st : ObjSt) (h : st.user = (stMeta o m).user) :
+    setUserCheck (st.user.getD []) = .ok () := by
+  have hl := strOK_len hm.user
+  rw [h]
+  unfold setUserCheck stMeta
+  cases o.md.any <;> cases o.md.user <;> simp [maxString] <;> omega
+
 theorem stMeta_defaults (o : Opts) (m : Meta) :
     (stMeta o m).hasTags = false ∧ (stMeta o m).tagsBegin = none ∧ (stMeta o m).hasLon = false ∧
     (stMeta o m).hasLat = false ∧ (stMeta o m).x = Location.undefinedCoordinate ∧
@@ -311,6 +319,8 @@ theorem node_roundtrip (o : Opts) (m : Meta) (l : Location) (hm : MetaOK m)
     have hft' : finishTags st0.tagsBegin = .ok m.tags := hft
     have hnv : valid ⟨st0.x, st0.y⟩ = false := by
       simp only [st0, hd5, hd6]; decide
+    simp only [bindE_ok]
+    rw [setUserCheck_stMeta o m hm _ rfl]
     simp only [bindE_ok, hft', hnv, Bool.false_eq_true, if_false, project, hu]
     refine congrArg (fun x => Except.ok (some (Object.node x _))) ?_
     apply metaOf_stMeta <;> rfl
@@ -325,6 +335,8 @@ theorem node_roundtrip (o : Opts) (m : Meta) (l : Location) (hm : MetaOK m)
     rw [loopFuel_ge _ 10 (by decide) _ _ _ hall]
     have hft' : finishTags st0.tagsBegin = .ok m.tags := hft
     have hvv : valid ⟨l.x, l.y⟩ = true := hv
+    simp only [bindE_ok]
+    rw [setUserCheck_stMeta o m hm _ rfl]
     simp only [bindE_ok, hft', hvv, if_true, project]
     refine congrArg (fun x => Except.ok (some (Object.node x _))) ?_
     apply metaOf_stMeta <;> rfl
@@ -353,6 +365,8 @@ theorem way_roundtrip (o : Opts) (m : Meta) (ns : List NodeRef) (hm : MetaOK m) 
   have hft' : finishTags st0.tagsBegin = .ok m.tags := hft
   have hnodes : pWayNodes ((joinSep 0x2c xs).length + 1) (joinSep 0x2c xs) = .ok (ns.map expect) :=
     hsl _ (by omega)
+  simp only [bindE_ok]
+  rw [setUserCheck_stMeta o m hm _ rfl]
   simp only [bindE_ok, hft', hnodes, project]
   have hex : ns.map expect = (if o.locationsOnWays then ns else ns.map fun n => { n with location := Location.undefined }) := by
     cases hlow : o.locationsOnWays <;> simp [expect, hlow]
@@ -379,6 +393,8 @@ theorem relation_roundtrip (o : Opts) (m : Meta) (ms : List Member) (hm : MetaOK
   have hmem : pMembers ((joinSep 0x2c xs).length + 1) (joinSep 0x2c xs) = .ok ms := by
     have := hsl ((joinSep 0x2c xs).length + 1) (by omega)
     simpa [pMembers] using this
+  simp only [bindE_ok]
+  rw [setUserCheck_stMeta o m hm _ rfl]
   simp only [bindE_ok, hft', hmem, project]
   refine congrArg (fun x => Except.ok (some (Object.relation x _))) ?_
   apply metaOf_stMeta <;> rfl
